@@ -109,8 +109,8 @@ func runC17(c *core.Ctx) {
 	for n := 0; n <= 70; n++ {
 		listLens = append(listLens, n)
 	}
-	listLens = append(listLens, 127, 128, 129, 253, 254, 255, 256, 257, 511, 512, 513, 1023, 1024, 1025)
-	c.Exhaustive("list lengths 0..70, 127..129, 253..257, 511..513, 1023..1025 for each of 22 lists", uint64(22*len(listLens)))
+	listLens = append(listLens, 99, 100, 101, 127, 128, 129, 253, 254, 255, 256, 257, 511, 512, 513, 999, 1000, 1001, 1002, 1023, 1024, 1025) // powers of two and of ten (where an index gets one more digit); the formatters are quadratic, 10^4 elements cost tens of CPU-seconds
+	c.Exhaustive("list lengths 0..70 and around 100, 128, 256, 512, 1000, 1024 for each of 22 lists", uint64(22*len(listLens)))
 	c.Section("list-lengths", uint64(len(listLens)), func(cs *core.Case) {
 		r := cs.R
 		n := listLens[cs.Idx]
